@@ -15,7 +15,8 @@ RULE = ("real AdaptationManager (fresh per case) over hierarchies built with typ
         "AdaptsTo traits in adapt modes no, yes, default with allow_none on/off, through the global manager (set and "
         "restored per query); histories on one trait of one object (the same pool object assigned repeatedly, offers "
         "registered and conditional factories flipped in between; both slots name / name_ observed by identity after "
-        "every step and compared with what adapt() answers now).  Exhaustive scope: 12 hierarchies on 3 types x every ordered sequence of <= 2 offers x "
+        "every step and compared with what adapt() answers now); late ABC registration (P.register(T) / @provides after the fact) "
+        "between repetitions of the same adapt / supports / trait queries, the line carrying the new issubclass table.  Exhaustive scope: 12 hierarchies on 3 types x every ordered sequence of <= 2 offers x "
         "every factory table x all (source, target) (quick); 12 hierarchies on 4 types x <= 3 offers x failing-offer sets "
         "(thorough).  Plus CPython list.sort(cmp_to_key) with arbitrary non-transitive tables and heapq against the two "
         "CPython models.  A case is non-trivial when a query went through _adapt (factory log non-empty) or raised; "
@@ -60,6 +61,10 @@ def corpus():
         "A|T=i0:;h1:;h2:1|" + _tables("T=i0:;h1:;h2:1") + "|0:1:0:1:n|-|h A 1 1 0 2 a0 r1:2:0:2:n a0",
         # F81 (known): … after an identity offer was registered adapt() gives the object itself; shadow stays stale
         "A|T=i0:;h1:;h2:1|" + _tables("T=i0:;h1:;h2:1") + "|0:1:0:1:n|-|h A 1 1 0 2 a0 r1:2:0:2:p a0",
+        # late registration (seeded change C17-m4): adapt fails, Printable.register(Legacy), adapt must now succeed —
+        # also for the subclass, through supports_protocol and through a Supports trait
+        "A|T=a0:;c1:;c2:1;c3:|" + _tables("T=a0:;c1:;c2:1;c3:") + "|0:0:3:0:n|-|a 1 3;a 2 3;s 2 3;"
+        "R 0 1 " + _late_P("T=a0:;c1:;c2:1;c3:", [(0, 1)]) + ";a 1 3;a 2 3;s 2 3;t S 1 1 2 3",
         # cycle
         "A|T=c0:;c1:;c2:|" + _tables("T=c0:;c1:;c2:") + "|0:0:1:0:n;1:1:0:1:n|-|a 0 2;d 0 2",
     ]
@@ -73,6 +78,13 @@ def _tables(spec):
         h = L.Hier(spec)
         _TAB_CACHE[spec] = h.P() + "|" + h.M()
     return _TAB_CACHE[spec]
+
+
+def _late_P(spec, regs):
+    h = L.Hier(spec)
+    for a, c in regs:
+        h.late_register(a, c)
+    return h.P()
 
 
 def generate(rng, tier):
@@ -95,6 +107,8 @@ def generate(rng, tier):
         yield L.random_specific_case(rng)
     for i in range(n):
         yield L.random_history_case(rng)
+    for i in range(n):
+        yield L.random_late_case(rng)
     for i in range(n // 10):
         yield L.random_case(rng, ordinal=True)
     for i in range(n // 30):
@@ -198,12 +212,22 @@ def run_impl(case):
     tags.add("types=%d" % hier.n)
     deterministic = not ctx.byord
     outs = []
+    late = False
     for q in queries.split(";"):
         w = q.split()
         if not w:
             continue
         kind = w[0]
         tags.add("q:" + kind)
+        if kind == "R":
+            # late registration: the hierarchy changes between adapt() calls
+            done = hier.late_register(int(w[1]), int(w[2]))
+            if hier.P() != w[3]:
+                return "harness-exception table-mismatch-after-late-registration", [], ["table-mismatch"]
+            outs.append("ok")
+            tags.add("late-registration" if done else "late-registration-refused")
+            late = True
+            continue
         if kind == "h":
             o, hs = _run_history(q, hier, offers, ftab, tags)
             outs.append(o)
@@ -245,7 +269,8 @@ def run_impl(case):
             else:
                 obs = _classify(ctx, src, r)
             outs.append(obs + " " + ctx.show_log())
-            hits += _oracle_adapt(kind, q, hier, src, src_type, target, info, ctx, obs, deterministic, collide, tags)
+            hs = _oracle_adapt(kind, q, hier, src, src_type, target, info, ctx, obs, deterministic, collide, tags)
+            hits += _after_late(hs, late, tags)
             continue
         if kind == "t":
             cls, mode, an = w[1], int(w[2]), int(w[3])
@@ -285,7 +310,8 @@ def run_impl(case):
             ref = None
             if src is not None:
                 ref, ref_exc = _guarded(lambda: mgr.adapt(src, target, None))
-            hits += _oracle_trait(cls, mode, an, src, target, exc, x, x_, ref, ref_exc, trait_log, ctx)
+            hits += _after_late(_oracle_trait(cls, mode, an, src, target, exc, x, x_, ref, ref_exc, trait_log, ctx),
+                                late, tags)
             continue
         outs.append("bad-query")
     if collide:
@@ -298,6 +324,22 @@ def run_impl(case):
 
 
 _MISSING = object()
+
+_LATE_SIGS = ("incomplete", "unsound-chain", "not-minimal", "default:", "trait-differs", "specificity:base-preferred",
+              "specificity:subclass-loses-under-weak-order", "identity:not-returned-unchanged")
+
+
+def _after_late(hs, late, tags):
+    """Hits on queries that run after a late ABC registration get their own signature: the answer must
+    follow the subclass relation current at the call (known findings keep their signature)."""
+    if not late:
+        return hs
+    tags.add("query-after-late-registration")
+    for h in hs:
+        if h["signature"].startswith(_LATE_SIGS):
+            h["signature"] += ":after-late-registration"
+            h["what"] += " [a class was registered with a protocol after earlier adapt() calls]"
+    return hs
 
 
 def _show_h(pool, v):
